@@ -1,3 +1,4 @@
 //! h-aux: drivers for the treasury, timelock, liquidity-provider and competition programs and GLV
 //! (state/function level, in memory); binaries under src/bin/.
+pub mod rt;
 pub mod util;
